@@ -16,7 +16,7 @@ META = {
     "as removed on the left of a tag; whitespace removed on the right of a tag is carried by that tag's closing "
     "token and by no data token; the data tokens are exactly the text R-ws keeps; and every token's line number is "
     "1 + the number of line breaks in the normalised source before the token's start offset.",
-    "note": "Bounded: <= 2 tags per skeleton, chunk alphabet of 10 strings, one statement form per tag kind. Where the "
+    "note": "Bounded: <= 2 tags per skeleton (thorough 3), chunk alphabet of 11 (thorough 13) strings, one statement form per tag kind. Where the "
     "removed whitespace lives in the token stream (left side: dropped; right side: inside the closing-delimiter token) "
     "is calibrated on the pinned tree - the property text only says it is removed. Token type names other than "
     "'data' are not compared.",
@@ -45,7 +45,7 @@ def ml_tags(mods="all"):
 
 def phases(quick):
     """[(name, ntags, chunk_slots, tagset, delimiter set names, keep_trailing values, newline forms)]"""
-    full = g.CHUNKS if quick else g.CHUNKS + g.CHUNKS_EXTRA
+    full = g.CHUNKS + ("\n\n",) if quick else g.CHUNKS + g.CHUNKS_EXTRA
     alld = tuple(g.DELIMS)
     ph = [
         ("0tags", 0, [full], [], alld, (False, True), NL_FORMS),
